@@ -27,6 +27,7 @@ type Prop struct {
 	Assumptions []string // trusted base
 	Replay      func(c *Ctx, raw json.RawMessage) // re-executes one recorded case
 	Serial      bool     // run in a single worker (the property shards itself or is tiny)
+	Require     []string // counters that must be > 0 after aggregation (vacuity guards); violated = engine error
 }
 
 var props = map[string]*Prop{}
@@ -424,8 +425,8 @@ func runParent(p *Prop, tier string, seed int64, nworkers int, budget time.Durat
 			}
 		}
 	}
-	if engineErr {
-		fmt.Fprintf(os.Stderr, "ENGINE-ERROR property=%s: a worker died and the case could not be pinned\n", p.ID)
+	if engineErr && len(viols) == 0 {
+		fmt.Fprintf(os.Stderr, "ENGINE-ERROR property=%s: engine errors above (or a worker died and the case could not be pinned)\n", p.ID)
 		return 2
 	}
 	// classify violations
@@ -460,6 +461,12 @@ func runParent(p *Prop, tier string, seed int64, nworkers int, budget time.Durat
 		fmt.Printf("... %d more distinct violation keys\n", nNew-25)
 	}
 	// evidence
+	for _, rq := range p.Require {
+		if agg.Counters[rq] <= 0 && nNew == 0 && agg.Exhaustive {
+			fmt.Fprintf(os.Stderr, "ENGINE-ERROR property=%s: vacuity guard: counter %q is 0\n", p.ID, rq)
+			return 2
+		}
+	}
 	if agg.Nontrivial < 2 && nNew == 0 {
 		fmt.Fprintf(os.Stderr, "ENGINE-ERROR property=%s: vacuous run (distinct non-trivial cases = %d)\n", p.ID, agg.Nontrivial)
 		return 2
@@ -512,6 +519,10 @@ func runParent(p *Prop, tier string, seed int64, nworkers int, budget time.Durat
 	if nNew > 0 {
 		return 1
 	}
+	if engineErr {
+		fmt.Fprintf(os.Stderr, "ENGINE-ERROR property=%s: engine errors above\n", p.ID)
+		return 2
+	}
 	return 0
 }
 
@@ -546,8 +557,13 @@ func main() {
 		pin    = flag.Bool("pin", false, "announce each case before executing it")
 		replay = flag.String("replay", "", "replay file")
 		list   = flag.Bool("list", false, "list properties")
+		race   = flag.Bool("c11race", false, "free-running race pass of C11 (race build only)")
 	)
 	flag.Parse()
+	if *race {
+		c11raceMain()
+		return
+	}
 	if *list {
 		var ids []string
 		for id := range props {
